@@ -61,6 +61,9 @@ pub enum Op {
     Roa { ca: String, add: Vec<String>, del: Vec<String> },
     AspaSet { ca: String, customer: u32, providers: Vec<u32> },
     AspaDel { ca: String, customer: u32 },
+    /// one update that removes the definition of `remove` and sets the one
+    /// of `customer`
+    AspaSwap { ca: String, remove: u32, customer: u32, providers: Vec<u32> },
     AspaProviders { ca: String, customer: u32, add: Vec<u32>, del: Vec<u32> },
     BgpsecAdd { ca: String, asn: u32, csr: usize },
     BgpsecDel { ca: String, asn: u32, csr: usize },
@@ -241,6 +244,20 @@ impl World {
                         providers: providers.iter().map(|p| asn(*p)).collect(),
                     }],
                     remove: vec![],
+                };
+                OpOutcome::from_res(
+                    self.krill.ca_manager().ca_aspas_definitions_update(
+                        ca(c), updates, &self.actor, &self.krill,
+                    ),
+                )
+            }
+            Op::AspaSwap { ca: c, remove, customer, providers } => {
+                let updates = AspaDefinitionUpdates {
+                    add_or_replace: vec![AspaDefinition {
+                        customer: asn(*customer),
+                        providers: providers.iter().map(|p| asn(*p)).collect(),
+                    }],
+                    remove: vec![asn(*remove)],
                 };
                 OpOutcome::from_res(
                     self.krill.ca_manager().ca_aspas_definitions_update(
